@@ -385,7 +385,7 @@ def uniform(data: ttb.tensor, samples: int) -> sample_type:
     subs = np.floor(
         np.random.uniform(0, 1, (samples, data.ndims)) * np.array(data.shape),
     ).astype(int)
-    vals = data[subs]
+    vals = np.atleast_1d(data[subs])
     wgts = (np.prod(data.shape) / samples) * np.ones((samples,))
     return subs, vals, wgts
 
